@@ -180,6 +180,8 @@ pub struct Drv {
     /// ids reserved with id() for later use as EXPLICIT result ids (never used as operands before they
     /// are defined): makes definitions appear out of numeric id order
     pub reserved: Vec<u32>,
+    /// result ids of ext_inst_import calls
+    pub import_ids: Vec<u32>,
 }
 
 impl Drv {
@@ -194,6 +196,7 @@ impl Drv {
             version: None,
             continued_from_bound: None,
             reserved: vec![],
+            import_ids: vec![],
         };
         // a few ids nothing defines: used as switch selectors and as "unknown" result types
         for _ in 0..3 {
@@ -393,6 +396,7 @@ impl Drv {
                     self.two_word_types.clear();
                     self.all_ids.clear();
                     self.reserved.clear();
+                    self.import_ids.clear();
                     Ret::Unit
                 })
             }
@@ -448,8 +452,19 @@ impl Drv {
                         } else {
                             g.inst(bind.opcode)
                         };
-                        let groups = std::mem::take(&mut g.last_groups);
+                        let mut groups = std::mem::take(&mut g.last_groups);
                         drop(g);
+                        // conjunction hot spots: known / non-semantic set names, and ext_inst naming an imported set
+                        if bind.name == "ext_inst_import" && arg_seed % 2 == 0 {
+                            let name = ["GLSL.std.450", "OpenCL.std", "NonSemantic.DebugPrintf", "NonSemantic.Shader.DebugInfo.100"][(arg_seed / 2 % 4) as usize];
+                            want.ops[0] = MOp::S(name.to_string());
+                            groups[0].items[0][0] = MOp::S(name.to_string());
+                        }
+                        if (bind.name == "ext_inst" || bind.name == "insert_ext_inst") && !self.import_ids.is_empty() && arg_seed % 4 != 0 {
+                            let set = self.import_ids[(arg_seed / 4) as usize % self.import_ids.len()];
+                            want.ops[0] = MOp::W(s.k_idref, set);
+                            groups[0].items[0][0] = MOp::W(s.k_idref, set);
+                        }
                         let has_rid = s.inst(bind.opcode).map(|gi| gi.operands.iter().any(|(k, _)| s.cat(*k) == crate::snapshot::Cat::IdResult)).unwrap_or(false);
                         let rid_explicit = if bind.has_result_id_param && *explicit_rid { Some(self.fresh_untracked()) } else { None };
                         want.rid = if has_rid { rid_explicit } else { None };
@@ -496,6 +511,11 @@ impl Drv {
             }
         }
         if let Delta::Added(_, _, inst) = delta(&rep.pre, &rep.post) {
+            if inst.is("ExtInstImport") {
+                if let Some(rid) = inst.rid {
+                    self.import_ids.push(rid);
+                }
+            }
             if let Some(rid) = inst.rid {
                 if !self.defined.contains(&rid) {
                     self.defined.push(rid);
